@@ -40,6 +40,19 @@ example : runOk (.fixed 65534) [.next, .next, .roc, .next, .roc, .next]
 example : (Start.fixed 65534).state.run [.next, .next, .roc, .next, .roc, .next] = [65534, 65535, 0, 0, 1, 1] := by
   decide
 
+/-- **the predicate is complete for fixed sequencers**: it does not merely hold of the model's
+    run, it determines the run — any observation of a fixed sequencer that satisfies `runOk` is, value
+    for value, the model's.  (So on `c07.run` cases with a fixed start "the predicate holds of the
+    real code" and "the real code agrees with the model" are the same statement.) -/
+theorem c07_sequential_unique (s : UInt16) (ops : List Op) (obs : List Nat)
+    (h : runOk (.fixed s) ops obs = true) : obs = (SeqState.newFixed s).run ops := by
+  have hlt := (SeqState.newFixed s).seq.toNat_lt
+  rw [run_refines _ _ (rep_init (SeqState.newFixed s) rfl)]
+  refine walk_unique (.fixed s) _ none 0 ops obs (by omega) (Or.inr ⟨rfl, ?_⟩) h
+  intro v hv
+  simp only [firstOk, beq_iff_eq] at hv
+  rw [hv, first_fixed]
+
 /-- the sequential model is the abstract counter of Rtp/Spec/Counter.lean (k-th value issued =
     (start + k) mod 2^16, roll-over count = (start + k) div 2^16), for every program -/
 theorem c07_refines_counter (st : Start) (ops : List Op) :
